@@ -97,7 +97,7 @@ class CentralityClasses:
             warnings.warn(
                 "'centrality_bins' is not sorted. Sorting automatically."
             )
-            centrality_bins.sort()
+            centrality_bins = sorted(centrality_bins)
 
         # Check for uniqueness of values
         # Remove duplicates from the list
